@@ -423,6 +423,10 @@ func (proc *Processor) ExecuteStatement(ctx context.Context, stmt parser.Stateme
 			}
 		}
 	case parser.TransactionControl:
+		if operationInProgress(ctx) {
+			err = NewOperationInProgressError(stmt.(parser.Expression))
+			break
+		}
 		switch stmt.(parser.TransactionControl).Token {
 		case parser.COMMIT:
 			err = proc.Commit(ctx, stmt.(parser.Expression))
